@@ -170,7 +170,7 @@ func c40Gen(t *rapid.T) c40Case {
 	}[rapid.IntRange(0, 14).Draw(t, "type")]
 	c.Dom = rapid.IntRange(0, c40NDoms-1).Draw(t, "dom")
 	c.N = rapid.IntRange(2, 3).Draw(t, "n")
-	n := rapid.IntRange(1, 10).Draw(t, "nops")
+	n := rapid.OneOf(rapid.IntRange(1, 12), rapid.IntRange(6, 12), rapid.IntRange(9, 12)).Draw(t, "nops")
 	tsGen := rapid.OneOf(
 		rapid.Int64Range(1, 1000),
 		rapid.SampledFrom([]int64{0, -1, 1, 1_700_000_000_123_456_789, math.MaxInt64, math.MinInt64, 999_999, 1_000_000}),
@@ -180,7 +180,7 @@ func c40Gen(t *rapid.T) c40Case {
 		var o c40Op
 		k := rapid.IntRange(0, 19).Draw(t, "kind")
 		switch {
-		case k < 13:
+		case k < 11:
 			o.Kind = 0
 		case k < 18:
 			o.Kind = 1
@@ -410,13 +410,36 @@ func (w *c40World) apply(i int, o c40Op) {
 	w.cur[r] = w.push(v, fmt.Sprintf("replica %d after op %d (update)", r, i))
 }
 
+// c40HasUnwrittenLWW reports whether v is, or (as a raw ORMap value, including values of
+// removed keys) contains, an LWWRegister that was never written.
+func c40HasUnwrittenLWW(v crdt.ReplicatedData) bool {
+	switch t := v.(type) {
+	case *crdt.LWWRegister:
+		return t.Value() == nil
+	case *crdt.ORMap:
+		for _, val := range t.RawState().Values {
+			if c40HasUnwrittenLWW(val) {
+				return true
+			}
+		}
+		for _, val := range t.Entries() {
+			if c40HasUnwrittenLWW(val) {
+				return true
+			}
+		}
+	}
+	return false
+}
+
 // ---- the round trip ------------------------------------------------------------------
 
 func c40RoundTrip(x *vfkit.X, ser remote.Serializer, v crdt.ReplicatedData, what string) (crdt.ReplicatedData, bool) {
 	pb, err := EncodeCRDT(v, ser)
 	if err != nil {
-		if r, ok := v.(*crdt.LWWRegister); ok && r.Value() == nil {
+		if c40HasUnwrittenLWW(v) {
 			// a register that was never written holds nil, which no serializer accepts: outside the domain
+			// (also reached through an ORMap value whose only Set carried a timestamp below the zero
+			// state's, which LWW ordering ignores)
 			x.Class("lww_never_written_not_encodable")
 			return nil, false
 		}
@@ -559,7 +582,7 @@ func c40Exec(x *vfkit.X, c c40Case) {
 func TestVF_C40_values(t *testing.T) {
 	vfkit.Run(t, vfkit.Spec[c40Case]{
 		ID: "C40", Unit: "values",
-		Rule: "case = CRDT type (ORMap with GCounter/ORSet/LWWRegister values), element/value domain (strings, ints, sized ints, floats/bools, mixed types, registered structs; registers also NaN, -0, struct pointers, proto messages), 2-3 replicas, <=10 operations/merges/compactions; v and w drawn from the pool of all states; non-trivial = v's metadata names >=2 node ids and (set-like types) its clock covers a dot that is no longer live (a removed or superseded element); distinct = distinct case",
+		Rule: "case = CRDT type (ORMap with GCounter/ORSet/LWWRegister values), element/value domain (strings, ints, sized ints, floats/bools, mixed types, registered structs; registers also NaN, -0, struct pointers, proto messages), 2-3 replicas, <=12 operations/merges/compactions; v and w drawn from the pool of all states; non-trivial = v's metadata names >=2 node ids and (set-like types) its clock covers a dot that is no longer live (a removed or superseded element); distinct = distinct case",
 		Gen:  c40Gen, Exec: c40Exec,
 	})
 }
